@@ -151,6 +151,34 @@ func (ctx *formatCtx) insert(name string) {
 	ctx.scope.Insert(o)
 }
 
+func isDefine(tok token.Token) bool {
+	return tok == token.DEFINE
+}
+
+func (ctx *formatCtx) insertIdents(names []*ast.Ident) {
+	for _, name := range names {
+		if name != nil && name.Name != "_" {
+			ctx.insert(name.Name)
+		}
+	}
+}
+
+func (ctx *formatCtx) insertExprs(exprs ...ast.Expr) {
+	for _, expr := range exprs {
+		if name, ok := expr.(*ast.Ident); ok {
+			ctx.insertIdents([]*ast.Ident{name})
+		}
+	}
+}
+
+func (ctx *formatCtx) insertFields(flds *ast.FieldList) {
+	if flds != nil {
+		for _, fld := range flds.List {
+			ctx.insertIdents(fld.Names)
+		}
+	}
+}
+
 func (ctx *formatCtx) enterBlock() *types.Scope {
 	old := ctx.scope
 	ctx.scope = types.NewScope(old, token.NoPos, token.NoPos, "")
@@ -229,7 +257,14 @@ func formatGenDecl(ctx *formatCtx, v *ast.GenDecl) {
 }
 
 func formatFuncDecl(ctx *formatCtx, v *ast.FuncDecl) {
+	old := ctx.enterBlock()
+	defer ctx.leaveBlock(old)
+
+	formatFields(ctx, v.Recv)
 	formatFuncType(ctx, v.Type)
+	ctx.insertFields(v.Recv)
+	ctx.insertFields(v.Type.Params)
+	ctx.insertFields(v.Type.Results)
 	formatBlockStmt(ctx, v.Body)
 }
 
